@@ -932,7 +932,10 @@ def run_property(prop, tier, seed):
         region_stage(out, "clear", prop, allnames, 1, 4 if q else 5, 0, 3 if q else 4, ["push", "clear"], equiv=2)
         ic_stage(out, "index-containers", prop, ["vec", "stride", "list", "opt"], "full", 4, 0)
         stack_stage(out, "flatstack", prop, stack_names(), 4 if q else 5, 0, 3, ["copy", "extend", "clear"])
-        coded_stage(out, q, seed, lambda e: e.get("afterclear", False) and not e["why"].startswith("cmp"))
+        coded_stage(out, q, seed, lambda e: (e.get("afterclear", False) and not e["why"].startswith("cmp")) or
+                    e["why"] == "merge-over-cleared-differs-from-fresh")
+        huffman_random_stage(out, q, seed, lambda e: (e.get("afterclear", False) and not e["why"].startswith("cmp")) or
+                             e["why"] == "merge-over-cleared-differs-from-fresh", "huffman-cleared")
         ic_walk_stage(out, q, seed, lambda e: e.get("afterclear", False) or e["why"] == "clear-panicked")
         coded_columns_stage(out, q, seed, lambda e: e.get("afterclear", False) or e["why"] == "clear-panicked")
         # long histories (allocations of hundreds of KiB), then clear, then the same pushes next to a brand-new twin
